@@ -21,6 +21,22 @@ DOT = z3.Function("DOT", z3.IntSort(), IdxArr, IdxArr, z3.RealSort())
 SUM = z3.Function("SUM", z3.IntSort(), IdxArr, z3.RealSort())
 
 
+_LAM_DEPTH = [0]
+
+
+def mk_lambda(f):
+    """lambda i. f(i) with a bound name that depends on the nesting depth of the construction: an element function that itself
+    builds DOT / SUM terms (nested lambdas) must not capture the enclosing index, and equal constructions stay syntactically equal"""
+    d = _LAM_DEPTH[0]
+    i = z3.Int("i!lam%d" % d if d else "i!lam")
+    _LAM_DEPTH[0] += 1
+    try:
+        body = to_real(f(i))
+    finally:
+        _LAM_DEPTH[0] -= 1
+    return z3.Lambda([i], body)
+
+
 class NArr(E.SymSeq):
     is_array = True       # numpy semantics: `a += b` is element-wise addition, not list concatenation
 
@@ -37,8 +53,7 @@ class NArr(E.SymSeq):
         return "NArr({}, len={})".format(self.label, self.length)
 
     def lam(self):
-        i = z3.Int("i!lam")
-        return z3.Lambda([i], to_real(self.elem(i)))
+        return mk_lambda(self.elem)
 
 
 def named_array(name, length):
